@@ -90,7 +90,7 @@ def genC18Cases (tier : String) (seed : Nat) : Array Case := Id.run do
     let (s, r1) := (match b % 4 with
       | 0 => genC01 { suffixes := false, maxDepth := 3, maxComps := 6 }
       | 1 => genSupC02 2
-      | 2 => genNestedSup { depth := 1, pairs := true }
+      | 2 => genNestedSup { depth := 1, pairs := true, nestedPairs := true }
       -- pair combinations whose components are single values: the brace-level operator is the
       -- only operator of the statement
       | _ => genNestedSup { depth := 0, pairs := true, exprDepth := 0 }) rng
